@@ -190,8 +190,48 @@ def _class_level_state():
     return _PRISTINE
 
 
+_FUNCS = None
+
+
+def _msmart_functions():
+    """Every function object reachable from msmart modules/classes (incl. property accessors and __wrapped__)."""
+    global _FUNCS
+    if _FUNCS is None:
+        import inspect
+        ns = import_msmart()
+        seen = {}
+
+        def add(f):
+            while f is not None and inspect.isfunction(f) and id(f) not in seen:
+                seen[id(f)] = (f, dict(f.__dict__))
+                f = getattr(f, "__wrapped__", None)
+        mods = [ns.lan, ns.base_device, ns.cloud, ns.discover, ns.cli, ns.frame, ns.const, ns.command, ns.acdevice,
+                sys.modules.get("msmart.utils")]
+        for m in mods:
+            if m is None:
+                continue
+            for v in list(vars(m).values()):
+                if inspect.isfunction(v) and getattr(v, "__module__", "").startswith("msmart"):
+                    add(v)
+        for cls in _msmart_classes():
+            for v in list(vars(cls).values()):
+                if isinstance(v, property):
+                    for acc in (v.fget, v.fset, v.fdel):
+                        add(acc)
+                elif isinstance(v, (classmethod, staticmethod)):
+                    add(v.__func__)
+                else:
+                    add(v)
+        _FUNCS = list(seen.values())
+    return _FUNCS
+
+
 def _reset_class_state():
     import copy
+    for f, pristine in _msmart_functions():
+        if f.__dict__ != pristine:
+            f.__dict__.clear()
+            f.__dict__.update(pristine)
     for cls, d in _class_level_state().items():
         for k, v in list(vars(cls).items()):
             if _is_data_attr(k, v) and k not in d:
